@@ -16,8 +16,12 @@ namespace {
 static const int FAMILY[4][2] = {{vm::T8, vm::U8}, {vm::TE10, vm::UE10}, {vm::T16, vm::U16}, {vm::UE14, vm::E12}};
 static const char *FAMNAME[4] = {"T8/U8", "TE10/UE10", "T16/U16", "UE14/E12"};
 
-// over-determined, fully known scenario (>= 2 excess equations per system)
-bool gen_scenario(Ctx &a, Scenario &sc, int type, int maxdim, int F) {
+// over-determined, fully known scenario (>= 2 excess equations per system).  For the per-column types (UE14, E12) with
+// >= 2 columns, half of the scenarios are MIXED instead: the extra standards are reflects on ports other than the first,
+// so the first column's system has as few equations as the baseline gives it (often exactly as many as unknowns)
+// while the later columns are over-determined; *mixed_exact says that the first system is exactly determined.
+bool gen_scenario(Ctx &a, Scenario &sc, int type, int maxdim, int F, bool *mixed_exact = nullptr) {
+    if (mixed_exact) *mixed_exact = false;
     sc = Scenario();
     sc.type = type;
     gen_dims(a, type, maxdim, sc.r, sc.c);
@@ -25,6 +29,13 @@ bool gen_scenario(Ctx &a, Scenario &sc, int type, int maxdim, int F) {
     sc.F = F; sc.ab = false;
     sc.freq = gen_freqs(a, F);
     for (int f = 0; f < F; f++) sc.box.push_back(gen_box(a, type, sc.r, sc.c));
+    // a third of the scenarios: a ROUGH test set -- port match up to 0.7 and receiver / source tracking unbalanced by up to
+    // 3:1 between ports and columns -- so that the residual weighting (the V matrices) is far from the identity
+    if (a.chance(1, 3)) for (auto &b : sc.box) {
+        auto unb = [&]() { return (long double)std::pow(3.0, 2 * (double)a.unit() - 1); };
+        if (vm::is_colsys(type)) for (int j = 0; j < sc.c; j++) { for (int i = 0; i < b.P; i++) b.Emc[j](i, i) *= 3.5L; for (int i = 0; i < sc.r; i++) b.Erc[j](i, i) *= unb(); b.Etc[j] *= unb(); }
+        else { for (int i = 0; i < b.P; i++) b.Em(i, i) *= 3.5L; for (int i = 0; i < sc.r; i++) b.Er(i, i) *= unb(); for (int j = 0; j < sc.c; j++) b.Et(j, j) *= unb(); }
+    }
     Gen g(a, sc);
     std::vector<int> inorder; for (int p = 0; p < sc.P; p++) inorder.push_back(p);
     if (vm::is_16(type)) {
@@ -32,7 +43,26 @@ bool gen_scenario(Ctx &a, Scenario &sc, int type, int maxdim, int F) {
         int eq = sc.r * sc.c, unk = unknowns_per_system(sc);
         int n = (unk + eq - 1) / eq + 3;
         for (int i = 0; i < n; i++) sc.stds.push_back(g.full_random(a.boolean() ? inorder : g.perm_ports(sc.P), true));
-    } else { g.baseline(); g.extras(); g.cover_leakage(); }
+    } else {
+        bool mixed = vm::is_colsys(type) && sc.c >= 2 && a.boolean();
+        g.baseline(); if (!mixed) g.extras(); g.cover_leakage();
+        if (mixed) {
+            int U = unknowns_per_system(sc), excess = 2 + (a.chance(1, 4) ? (int)a.range(4, 10) : 0);      // slightly (mostly) or heavily over-determined later columns
+            for (int guard = 0; guard < 64; guard++) {
+                auto eq = count_equations(sc, sc.stds.size());
+                int need = -1; for (int j = 1; j < (int)eq.size(); j++) if (eq[j] < U + excess) { need = j; break; }
+                if (need < 0) break;
+                sc.stds.push_back(g.single(need, rnd_disk(a, 0.2L, 1.0L), true));
+            }
+            auto eq = count_equations(sc, sc.stds.size());
+            if (eq[0] < U) return false;
+            if (mixed_exact) *mixed_exact = eq[0] == U;
+            g.shuffle();
+            for (int f = 0; f < F; f++) { vm::Ident id = ident_at(sc, f); if (!id.determining || id.kappa > 1e3L) return false; }
+            sc.dut = gen_dut(a, sc.P, F);
+            return true;
+        }
+    }
     for (int guard = 0; guard < 8; guard++) {
         auto eq = count_equations(sc, sc.stds.size()); int U = unknowns_per_system(sc);
         bool enough = true; for (int e : eq) if (e < U + 2) enough = false;
@@ -208,9 +238,11 @@ void pbt_property(Ctx &c) {
     double alpha = a.boolean() ? 0.01 : 0.05;
     int rejected = 0, done = 0, math_ok = 0;
     int sub_n = 0, sub_rej = 0;      // sub-population: tracking-dominated noise on a multi-port calibration (weights genuinely unequal)
+    int mix_n = 0, mix_rej = 0;      // sub-population: per-column type whose first system is exactly determined while later ones are over-determined
     for (int i = 0; i < N * 3 && done < N; i++) {
         Scenario sc; int type = FAMILY[fam][a.draw(2)]; int F = 1 + (int)a.draw(2);
-        if (!gen_scenario(a, sc, type, 2, F)) continue;
+        bool mixed_exact = false;
+        if (!gen_scenario(a, sc, type, 2, F, &mixed_exact)) continue;
         Noise n = gen_noise(a, sc);
         int victim = -1;
         if (outlier) {
@@ -234,6 +266,7 @@ void pbt_property(Ctx &c) {
         done++;
         bool sub = !outlier && n.with_tr && n.tr0 >= 10 * n.nf0 && sc.P >= 2;
         if (sub) { sub_n++; if (rc != 0) sub_rej++; }
+        if (!outlier && mixed_exact) { mix_n++; if (rc != 0) mix_rej++; }
         if (getenv("C18_DIAG")) fprintf(stderr, "DIAG %s %dx%d F=%d grid=%d tr=%d slope=%.2f nstd=%zu rc=%d %s\n", vm::tname(sc.type), sc.r, sc.c, sc.F, n.grid, (int)n.with_tr, n.slope, sc.stds.size(), rc, rc ? msg.c_str() : "");
         if (rc != 0) { rejected++; if (err == EDOM && mcb) math_ok++; else c.fail("C18.rejection_report", "rejection reported with errno %d (%s) / %s", err, strerror(err), msg.c_str()); }
     }
@@ -256,6 +289,13 @@ void pbt_property(Ctx &c) {
             c.track_max(std::string("noisy-sub ") + FAMNAME[fam] + (alpha == 0.05 ? ": rate at alpha .05" : ": rate at alpha .01"), (double)sub_rej / sub_n);
             c.note("   tracking-dominated multi-port sub-population: %d of %d rejected (limit %.0f)", sub_rej, sub_n, lim);
             PBT_CHECK(c, sub_rej <= lim, "C18.rejection_rate_tracking", "family %s, significance %g: %d of %d correctly-modelled tracking-dominated noisy data sets rejected (limit %.0f)", FAMNAME[fam], alpha, sub_rej, sub_n, lim);
+        }
+        if (mix_n >= 40) {
+            double p4 = 4 * alpha, lim = mix_n * p4 + 6.2 * sqrt(mix_n * p4 * (1 - p4)); if (lim < 8) lim = 8;
+            c.track_max(std::string("noisy-mixed ") + FAMNAME[fam] + (alpha == 0.05 ? ": rate at alpha .05" : ": rate at alpha .01"), (double)mix_rej / mix_n);
+            c.note("   first system exactly determined, later ones over-determined: %d of %d rejected (limit %.0f)", mix_rej, mix_n, lim);
+            c.label("noisy-batch:mixed-subpopulation>=40");
+            PBT_CHECK(c, mix_rej <= lim, "C18.rejection_rate_mixed_systems", "family %s, significance %g: %d of %d correctly-modelled noisy data sets rejected where the first column's system is exactly determined and a later one over-determined (limit %.0f)", FAMNAME[fam], alpha, mix_rej, mix_n, lim);
         }
         PBT_CHECK(c, rejected >= lo && rejected <= hi, "C18.rejection_rate", "family %s, significance %g: %d of %d correctly-modelled noisy data sets rejected (accepted band %d..%d)", FAMNAME[fam], alpha, rejected, N, lo, hi);
     }
